@@ -179,7 +179,10 @@ def assemble(flavour, cfg, files, active_units, ext_out, auto_weak=()):
     parts.append('pub mod shims {\n#[allow(unused_imports)] use vstd::prelude::*;\npub use crate::spec::World;\n'
                  '/// used ONLY at a call site where a unit whose contract is read-only calls something that\n'
                  '/// mutates the file system (reported as a violation of that unit\'s read-only obligation)\n'
-                 '#[verifier::external_body]\npub fn ro_violation_world<\'a>() -> Tracked<&\'a mut World> { unimplemented!() }\n')
+                 '#[verifier::external_body]\npub fn ro_violation_world<\'a>() -> Tracked<&\'a mut World> { unimplemented!() }\n'
+                 '/// degraded mode only: code the extraction cannot express is replaced by "anything may have happened"\n'
+                 '#[verifier::external_body]\npub fn havoc_world(Tracked(w): Tracked<&mut World>) { unimplemented!() }\n'
+                 '#[verifier::external_body]\npub fn arbitrary<T>() -> T { unimplemented!() }\n')
     shim_cfg = cfg['shim_files']
     for entry in shim_cfg:
         if 'flavours' in entry and flavour not in entry['flavours']:
